@@ -259,15 +259,9 @@ def subscribe_on_all_exits(rep, mod, rule, only=None):
                   construct='subscribe', node=f)
 
 
-def inv4(rep, mod, table):
-    pairs = (('_uncached_lookup', 'lookup', '_cache'),
-             ('_uncached_lookupAll', 'lookupAll', '_mcache'),
-             ('_uncached_subscriptions', 'subscriptions', '_scache'))
-    from . import sem as _sem
-    for fn_ in ('lookup', 'lookup1', 'adapter_hook', 'lookupAll', 'subscriptions'):
-        _sem.fetch_order_spec(rep, 'INV-4', find_def(mod, 'LookupBase.' + fn_),
-                              'LookupBase.' + fn_)
-    subscribe_on_all_exits(rep, mod, 'INV-4')
+def subscribe_all_spec(rep, mod, rule='INV-4'):
+    """AdapterLookupBase._subscribe subscribes to EVERY required specification
+    not yet recorded (shared: C05 INV-4, C07 R07.9, C08 R08.8)"""
     # _subscribe
     f = find_def(mod, 'AdapterLookupBase._subscribe')
     va = f.args.vararg.arg if f.args.vararg else None
@@ -317,8 +311,22 @@ def inv4(rep, mod, table):
     detail = ('subscribes to every required spec not yet recorded in '
               'self._required and records it') if ok else \
         {'problems': sorted(set(probs)) or ['path kinds %s' % sorted(kinds)]}
-    rep.check('INV-4', 'AdapterLookupBase._subscribe', ok, detail,
+    rep.check(rule, 'AdapterLookupBase._subscribe', ok, detail,
               construct='subscribe-all', node=f)
+
+
+def inv4(rep, mod, table):
+    pairs = (('_uncached_lookup', 'lookup', '_cache'),
+             ('_uncached_lookupAll', 'lookupAll', '_mcache'),
+             ('_uncached_subscriptions', 'subscriptions', '_scache'))
+    from . import sem as _sem
+    for fn_ in ('lookup', 'lookup1', 'adapter_hook', 'lookupAll', 'subscriptions'):
+        _sem.fetch_order_spec(rep, 'INV-4', find_def(mod, 'LookupBase.' + fn_),
+                              'LookupBase.' + fn_)
+    subscribe_on_all_exits(rep, mod, 'INV-4')
+    subscribe_all_spec(rep, mod, 'INV-4')
+    from . import sem as _sem
+    _sem.lookup1_spec(rep, 'INV-4', find_def(mod, 'LookupBase.lookup1'), 'LookupBase.lookup1')
     # changed(): unsubscribe + clear
     f = find_def(mod, 'AdapterLookupBase.changed')
     all_paths_event(rep, 'INV-4', f, 'AdapterLookupBase.changed',
